@@ -1,5 +1,5 @@
 (* C04 — property theorems.  Nothing but statements, `exact`, Print Assumptions. *)
-From G04 Require Import Access AccessCheck AccessProofs B64Proofs AcceptProofs OracleProofs Obligations.
+From G04 Require Import Access AccessCheck AccessProofs TimeFrame TimeFrameProofs B64Proofs AcceptProofs OracleProofs Obligations.
 
 (* A request the chain refuses — at ANY position on a connection, whatever its method
    (CONNECT included) — produces no Dial and no Send, and exactly one response: the
@@ -116,6 +116,36 @@ Theorem T04_allow_forwarded : forall cfg e q up,
 Proof. exact (fun cfg e q up H => allowed_exchange ob_handle_shape ob_connect_shape cfg e q up
                 (proj2 (verdict_allow_iff ob_security_before_stack cfg e q) H)). Qed.
 Print Assumptions T04_allow_forwarded.
+
+(* --allow-time-frame: every accepted entry ("mon/11-13", " Friday /23-24", "sat/+0-24") is a weekday and an hour
+   interval inside the day ... *)
+Theorem T04_timeframe_parse_valid : forall s e,
+  parse_time_frame s = Some e -> tf_day e <= 6 /\ tf_start e <= tf_end e /\ tf_end e <= 24.
+Proof. exact parse_time_frame_valid. Qed.
+Print Assumptions T04_timeframe_parse_valid.
+
+(* ... a list allows exactly the clock values inside one of its half-open intervals (an empty interval none) ... *)
+Theorem T04_timeframe_allows_iff : forall es d h,
+  time_allows es d h = true <-> exists e, In e es /\ tf_day e = d /\ tf_start e <= h /\ h < tf_end e.
+Proof. exact (time_allows_spec ob_timeframe_half_open). Qed.
+Print Assumptions T04_timeframe_allows_iff.
+
+(* ... and when the clock is outside every interval of a non-empty configured list, EVERY request is refused. *)
+Theorem T04_timeframe_refuses_outside : forall cfg e q,
+  c_timeframe cfg <> [] ->
+  (forall x, In x (c_timeframe cfg) -> ~ (tf_day x = now_day e /\ tf_start x <= now_hour e /\ now_hour e < tf_end x)) ->
+  exists k, verdict_of cfg e q = Deny k.
+Proof. exact (outside_frames_refused ob_timeframe_half_open ob_security_before_stack). Qed.
+Print Assumptions T04_timeframe_refuses_outside.
+
+Example T04_timeframe_example :
+  parse_time_frame (b " Tuesday /9-17") = Some {| tf_day := 2; tf_start := 9; tf_end := 17 |} /\
+  parse_time_frame (b "sat/+0-24") = Some {| tf_day := 6; tf_start := 0; tf_end := 24 |} /\
+  parse_time_frame (b "mon/0-0") = Some {| tf_day := 1; tf_start := 0; tf_end := 0 |} /\
+  parse_time_frame (b "mon/ 9-17") = None /\ parse_time_frame (b "mon/17-9") = None /\
+  parse_time_frame (b "mon/9-25") = None /\ parse_time_frame (b "mo/9-17") = None /\
+  time_allows [{| tf_day := 1; tf_start := 0; tf_end := 0 |}] 1 0 = false.
+Proof. exact (conj eq_refl (conj eq_refl (conj eq_refl (conj eq_refl (conj eq_refl (conj eq_refl (conj eq_refl eq_refl))))))). Qed.
 
 (* The run-time oracle is met by the model: for EVERY configuration, time and request, what the
    model predicts (status, headers, dial log, what reaches a peer, where the exchange goes)
